@@ -329,14 +329,19 @@ package limiter
 //@   ensures[C20] limit_gauge: callarg("core.MetricRegistry.RegisterGauge", 0, 0) == "queue_limit"
 
 //@ func NewQueueBlockingLimiterWithDefaults
+//@   requires cfg: delegate != nil
 //@   ensures[C11] lifo_by_default: result != nil && result.backlog != nil && result.backlog.ordering == "lifo" && result.delegate == delegate && result.maxBacklogSize == 100 && result.maxBacklogTimeout == 1000000000
 
 //@ func NewFifoBlockingLimiter
+//@   requires cfg: delegate != nil
 //@   ensures[C11] fifo: result != nil && result.QueueBlockingLimiter != nil && result.QueueBlockingLimiter.backlog.ordering == "fifo" && result.QueueBlockingLimiter.delegate == delegate
 //@   ensures[C12,C13] sizes: result.QueueBlockingLimiter.maxBacklogSize == uint64(ite(maxBacklogSize <= 0, 100, maxBacklogSize)) && result.QueueBlockingLimiter.maxBacklogTimeout == ite(maxBacklogTimeout == 0, 1000000000, maxBacklogTimeout)
 //@ func NewFifoBlockingLimiterWithDefaults
+//@   requires cfg: delegate != nil
 //@   ensures[C11] fifo: result != nil && result.QueueBlockingLimiter != nil && result.QueueBlockingLimiter.backlog.ordering == "fifo" && result.QueueBlockingLimiter.delegate == delegate
 //@ func NewLifoBlockingLimiter
+//@   requires cfg: delegate != nil
 //@   ensures[C11] lifo: result != nil && result.QueueBlockingLimiter != nil && result.QueueBlockingLimiter.backlog.ordering == "lifo" && result.QueueBlockingLimiter.delegate == delegate
 //@ func NewLifoBlockingLimiterWithDefaults
+//@   requires cfg: delegate != nil
 //@   ensures[C11] lifo: result != nil && result.QueueBlockingLimiter != nil && result.QueueBlockingLimiter.backlog.ordering == "lifo" && result.QueueBlockingLimiter.delegate == delegate
